@@ -6,6 +6,7 @@ import (
 	"io"
 	"log"
 	"math"
+	"sync"
 	"testing"
 	"time"
 
@@ -867,6 +868,9 @@ type reinitCase struct {
 	// Bad: length of a frequency vector that InitModel must refuse, tried between the valid calls
 	// (protein models; the nucleotide models validate nothing); -1 = none
 	Bad int `json:"bad"`
+	// Shared: the user frequencies of the protein model are handed to every InitModel in ONE caller-owned
+	// buffer that is overwritten in place between the calls (InitModel keeps the slice it is given)
+	Shared bool `json:"shared"`
 }
 
 func genReinit(t *rapid.T) reinitCase {
@@ -877,6 +881,7 @@ func genReinit(t *rapid.T) reinitCase {
 		c.B = mCase{Model: c.A.Model}
 		fillProt(t, &c.B)
 		c.Bad = rapid.SampledFrom([]int{19, 21, -1, 0, 1, 40}).Draw(t, "bad")
+		c.Shared = rapid.Bool().Draw(t, "shared")
 		return c
 	}
 	c.A = genDNA(t)
@@ -1091,9 +1096,20 @@ func paramString(c mCase) string {
 // reinitGuarded: InitModel on a ProtModel that was initialised before. Before 31adb09 the
 // decomposition of the then non-finite matrix sometimes never returned (gonum Dgebal): the call is
 // bounded (20 s for a call that takes 0.1 ms; the process exits and the driver re-runs the case)
-func reinitGuarded(test string, m models.Model, c mCase) (err error) {
-	pbt.Guarded(test, c, pbt.WatchdogLimit(20*time.Second), func() { err = initModel(m, c) })
+func reinitGuarded(test string, m models.Model, c mCase, buf []float64) (err error) {
+	pbt.Guarded(test, c, pbt.WatchdogLimit(20*time.Second), func() { err = initProtein(m, c, buf) })
 	return
+}
+
+// initProtein: InitModel of a protein model with the frequencies of c. With a buffer, user frequencies
+// are written into that buffer and the buffer itself is passed: the same backing array call after call
+func initProtein(mod models.Model, c mCase, buf []float64) error {
+	m, ok := mod.(*protein.ProtModel)
+	if !ok || buf == nil || c.Pi == nil {
+		return initModel(mod, c)
+	}
+	copy(buf, c.Pi)
+	return m.InitModel(buf)
 }
 
 // rejectedInit: InitModel with a frequency vector of the wrong length on a model initialised with prev.
@@ -1150,13 +1166,23 @@ func rejectedInit(mod models.Model, prev mCase, n int, o *pbt.Outcome) error {
 
 func checkReinitProtein(c reinitCase) (o pbt.Outcome, err error) {
 	name := c.A.Model
-	m, e := buildModel(c.A)
+	var buf []float64
+	if c.Shared {
+		buf = make([]float64, 20)
+	}
+	m, e := newModelObject(name)
+	if e == nil {
+		e = initProtein(m, c.A, buf)
+	}
 	if e != nil {
 		return o, fmt.Errorf("%s: model initialisation fails on valid parameters: %v", name, e)
 	}
 	firstA, err := checkOn(m, c.A, &o)
 	if err != nil {
 		return o, fmt.Errorf("round 1 (first frequencies): %v", err)
+	}
+	if c.Shared && (c.A.Pi != nil || c.B.Pi != nil) {
+		o.Class("protein: one caller-owned frequency buffer overwritten in place")
 	}
 	tOld := c.A.Ts[len(c.A.Ts)/2]
 	old, e := models.NewPij(m, tOld)
@@ -1167,7 +1193,7 @@ func checkReinitProtein(c reinitCase) (o pbt.Outcome, err error) {
 	if err = rejectedInit(m, c.A, c.Bad, &o); err != nil {
 		return o, fmt.Errorf("after round 1: %v", err)
 	}
-	if e = reinitGuarded("TestReinit", m, c.B); e != nil {
+	if e = reinitGuarded("TestReinit", m, c.B, buf); e != nil {
 		return o, fmt.Errorf("%s: InitModel with the second frequencies on a model already initialised and used fails: %v", name, e)
 	}
 	if _, err = checkOn(m, c.B, &o); err != nil {
@@ -1202,7 +1228,7 @@ func checkReinitProtein(c reinitCase) (o pbt.Outcome, err error) {
 	if err = rejectedInit(m, c.B, c.Bad, &o); err != nil {
 		return o, fmt.Errorf("after round 2: %v", err)
 	}
-	if e = reinitGuarded("TestReinit", m, c.A); e != nil {
+	if e = reinitGuarded("TestReinit", m, c.A, buf); e != nil {
 		return o, fmt.Errorf("%s: InitModel with the first frequencies again fails: %v", name, e)
 	}
 	for k, t := range c.A.Ts {
@@ -1229,7 +1255,7 @@ func TestKnownProteinReinit(t *testing.T) {
 		return
 	}
 	var o pbt.Outcome
-	err := reinitGuarded("TestKnownProteinReinit", m, c)
+	err := reinitGuarded("TestKnownProteinReinit", m, c, nil)
 	if err == nil {
 		_, err = pbt.Eval(c, func(c mCase) (pbt.Outcome, error) {
 			_, e := checkOn(m, c, &o)
@@ -1245,6 +1271,103 @@ func TestKnownProteinReinit(t *testing.T) {
 }
 
 func TestReinit(t *testing.T) { pbt.Run(t, genReinit, checkReinit) }
+
+// ---- models initialised concurrently -------------------------------------------------------------------------
+//
+// Independent model objects are independent: the distance code of goalign evaluates models in worker
+// goroutines, and nothing in the API asks the caller to serialise the initialisation of DIFFERENT objects.
+// Several models of every kind are built, initialised and evaluated each in its own goroutine, started
+// together, several times over; every matrix must equal (1e-12) the one the same parameters give
+// sequentially, which the other runs judge against the oracle.
+
+type concCase struct {
+	Models []mCase `json:"models"`
+	Rounds int     `json:"rounds"`
+}
+
+func genConc(t *rapid.T) concCase {
+	var c concCase
+	n := rapid.IntRange(4, 12).Draw(t, "nmodels")
+	for i := 0; i < n; i++ {
+		if rapid.IntRange(0, 4).Draw(t, "prot") == 0 {
+			c.Models = append(c.Models, genProt(t))
+		} else {
+			c.Models = append(c.Models, genDNA(t))
+		}
+	}
+	c.Rounds = rapid.IntRange(5, 20).Draw(t, "rounds")
+	return c
+}
+
+func evalModel(c mCase) (out []matrix, err error) {
+	defer func() {
+		if r := recover(); r != nil {
+			err = fmt.Errorf("panic: %v", r)
+		}
+	}()
+	m, e := buildModel(c)
+	if e != nil {
+		return nil, e
+	}
+	for _, t := range c.Ts {
+		p, e := observe(m, t)
+		if e != nil {
+			return nil, e
+		}
+		out = append(out, p)
+	}
+	return out, nil
+}
+
+func checkConc(c concCase) (o pbt.Outcome, err error) {
+	if len(c.Models) < 2 || c.Rounds < 1 || c.Rounds > 100 {
+		o.Skip = true
+		return o, nil
+	}
+	for _, mc := range c.Models {
+		if !domainOK(mc) {
+			o.Skip = true
+			return o, nil
+		}
+	}
+	want := make([][]matrix, len(c.Models))
+	for i, mc := range c.Models {
+		if want[i], err = evalModel(mc); err != nil {
+			return o, fmt.Errorf("%s, alone: %v", mc.Model, err)
+		}
+	}
+	for round := 0; round < c.Rounds; round++ {
+		got := make([][]matrix, len(c.Models))
+		errs := make([]error, len(c.Models))
+		start := make(chan struct{})
+		var wg sync.WaitGroup
+		for i := range c.Models {
+			wg.Add(1)
+			go func(i int) {
+				defer wg.Done()
+				<-start
+				got[i], errs[i] = evalModel(c.Models[i])
+			}(i)
+		}
+		close(start)
+		wg.Wait()
+		for i, mc := range c.Models {
+			if errs[i] != nil {
+				return o, fmt.Errorf("%s (%s) initialised while %d other model objects are initialised in other goroutines: %v", mc.Model, paramString(mc), len(c.Models)-1, errs[i])
+			}
+			for k := range want[i] {
+				if d, at := maxDiff(got[i][k], want[i][k]); d > 1e-12 {
+					return o, fmt.Errorf("%s (%s) initialised while %d other model objects are initialised in other goroutines (round %d): P(%g)[%d][%d] = %.12g, alone the same parameters give %.12g", mc.Model, paramString(mc), len(c.Models)-1, round+1, mc.Ts[k], at[0], at[1], got[i][k][at[0]][at[1]], want[i][k][at[0]][at[1]])
+				}
+			}
+		}
+	}
+	o.NonTrivial = true
+	o.Class("models in parallel: %d", len(c.Models))
+	return o, nil
+}
+
+func TestConcurrent(t *testing.T) { pbt.Run(t, genConc, checkConc) }
 
 // ---- the corners of the parameter domain, enumerated -------------------------------------------------
 
